@@ -41,6 +41,7 @@ type CfgSpec struct {
 	Filters        []FilterSpec    `json:"filters"`
 	TriggerRules   json.RawMessage `json:"triggerRules,omitempty"`
 	AllowUnmatched bool            `json:"allowUnmatched"`
+	Replicas       int             `json:"replicas"` // service instances built from this one configuration (default 1); they share Redis and the provider, nothing else
 }
 
 // AnsSpec programs the simulated token endpoint's next answer.
@@ -56,6 +57,7 @@ type AnsSpec struct {
 	TokenType string `json:"tt"` // default Bearer
 	AudArray  bool   `json:"audArray"`
 	Extra     bool   `json:"extra"`     // extra members in the body
+	IatSkew   int    `json:"iatSkew"`   // seconds the provider's clock is ahead: iat and nbf of the ID token lie that far in the future
 	Big       bool   `json:"big"`       // a large (but compliant) answer: ID token with hundreds of groups, a 12 KB extra member
 	IDLife    int    `json:"idLife"`    // seconds, default 60
 	RfNonce   string `json:"rfNonce"`   // refresh: same (default) | absent | foreign
@@ -75,6 +77,7 @@ type Step struct {
 	Op string `json:"op"` // start | step | finish | check | tick | authz | browse | keyset | secret
 
 	C        string   `json:"c"`        // check id (start/step/finish/check)
+	R        int      `json:"r"`        // replica (service instance) that receives the request, default 0
 	B        string   `json:"b"`        // browser id
 	F        string   `json:"f"`        // filter (chain) addressed
 	Kind     string   `json:"kind"`     // app | callback | logout
